@@ -4,6 +4,7 @@ package main
 
 import (
 	"fmt"
+	"go/token"
 	"go/types"
 
 	"golang.org/x/tools/go/ssa"
@@ -415,4 +416,101 @@ func (p *Prog) unreachableRec(fn *ssa.Function, seen map[*ssa.Function]bool) boo
 		}
 	}
 	return true
+}
+
+// globalInitOnly: package-level variable g is assigned only by its package initialiser and every other reference to
+// it is a plain load whose result is only (a) read element-wise / measured (index, lookup, range, len, comparison), or
+// (b) used as the receiver of a method the contract table documents as safe on a shared receiver. Nothing stores it,
+// passes it on, takes its address or writes through it.
+func (p *Prog) globalInitOnly(g *ssa.Global) (bool, string) {
+	pk := g.Pkg
+	for _, f := range pkgFunctions(pk) {
+		isInit := f.Name() == "init" && f.Synthetic != ""
+		for _, b := range f.Blocks {
+			for _, in := range b.Instrs {
+				uses := false
+				for _, op := range in.Operands(nil) {
+					if op != nil && *op == ssa.Value(g) {
+						uses = true
+					}
+				}
+				if !uses {
+					continue
+				}
+				switch x := in.(type) {
+				case *ssa.Store:
+					if x.Addr == ssa.Value(g) && isInit {
+						continue
+					}
+					return false, "stored in " + shortFn(f)
+				case *ssa.UnOp:
+					if isInit {
+						continue
+					}
+					for _, r := range *x.Referrers() {
+						if ok, why := readOnlyUse(x, r); !ok {
+							return false, why + " in " + shortFn(f)
+						}
+					}
+				case *ssa.IndexAddr, *ssa.FieldAddr:
+					v := in.(ssa.Value)
+					for _, r := range *v.Referrers() {
+						if u, isLoad := r.(*ssa.UnOp); !isLoad || u.Op != token.MUL {
+							if _, isDbg := r.(*ssa.DebugRef); !isDbg && !isInit {
+								return false, "element address escapes in " + shortFn(f)
+							}
+						}
+					}
+				case *ssa.DebugRef:
+				default:
+					if !isInit {
+						return false, fmt.Sprintf("used by %T in %s", in, shortFn(f))
+					}
+				}
+			}
+		}
+	}
+	return true, ""
+}
+
+func readOnlyUse(v ssa.Value, r ssa.Instruction) (bool, string) {
+	switch x := r.(type) {
+	case *ssa.DebugRef, *ssa.Index, *ssa.Lookup, *ssa.Range, *ssa.BinOp, *ssa.If:
+		return true, ""
+	case *ssa.IndexAddr:
+		for _, rr := range *x.Referrers() {
+			if u, isLoad := rr.(*ssa.UnOp); !isLoad || u.Op != token.MUL {
+				if _, isDbg := rr.(*ssa.DebugRef); !isDbg {
+					return false, "element address of the shared value escapes or is written"
+				}
+			}
+		}
+		return true, ""
+	case *ssa.FieldAddr:
+		for _, rr := range *x.Referrers() {
+			if u, isLoad := rr.(*ssa.UnOp); !isLoad || u.Op != token.MUL {
+				if _, isDbg := rr.(*ssa.DebugRef); !isDbg {
+					return false, "field address of the shared value escapes or is written"
+				}
+			}
+		}
+		return true, ""
+	case ssa.CallInstruction:
+		c := x.Common()
+		if b, isB := c.Value.(*ssa.Builtin); isB && (b.Name() == "len" || b.Name() == "cap") {
+			return true, ""
+		}
+		name, _ := calleeName(c)
+		ct := lookupContract(name)
+		if ct != nil && ct.ConcSafeRecv && len(c.Args) > 0 && c.Args[0] == v && !c.IsInvoke() {
+			for _, a := range c.Args[1:] {
+				if a == v {
+					return false, "shared value passed as an argument of " + shortName(name)
+				}
+			}
+			return true, ""
+		}
+		return false, "shared value handed to " + shortName(name)
+	}
+	return false, fmt.Sprintf("shared value used by %T", r)
 }
